@@ -83,7 +83,7 @@ Proof.
   - pose proof (find_colon_spec (skipn q (t_bytes t)) q) as H. unfold first_colon, byte_at, tlen in *.
     rewrite skipn_length in H. destruct (find_colon _ q) as [c|].
     + destruct H as [A [B [C D]]]. rewrite nth_skip in C. replace (q + (c - q)) with c in C by lia.
-      repeat split; try lia; [exact C|]. intros i I1 I2. specialize (D (i - q) ltac:(lia)).
+      split; [lia|]. split; [lia|]. split; [exact C|]. intros i I1 I2. specialize (D (i - q) ltac:(lia)).
       rewrite nth_skip in D. now replace (q + (i - q)) with i in D by lia.
     + intros i I1 I2. specialize (H (i - q) ltac:(lia)). rewrite nth_skip in H. now replace (q + (i - q)) with i in H by lia.
   - unfold tlen in Q. rewrite skipn_all2 by lia. cbn. intros i I1 I2. unfold tlen in I2. lia.
